@@ -50,6 +50,8 @@ struct LoopState<'a> {
     variable: &'a str,
     max: i64,
     stmts: &'a [Stmt],
+    /// Counter value of the current iteration
+    value: i64,
 }
 
 #[derive(Debug)]
@@ -89,6 +91,7 @@ impl<'a> LoopState<'a> {
                 variable: "",
                 max: 0,
                 stmts: &[],
+                value: 0,
             },
         )
     }
@@ -146,6 +149,7 @@ impl<'a> StmtIterator<'a> {
                                 variable,
                                 max: max.eval(ctx)?,
                                 stmts: inner,
+                                value: 0,
                             })
                         }
                         Stmt::ResetRandom => ctx.reset_random_seed(),
@@ -183,13 +187,9 @@ impl<'a> StmtIterator<'a> {
                     };
                 }
                 StmtIteratorState::EndIterateInner(loop_state) => {
-                    let prev_value = ctx
-                        .get(loop_state.variable)
-                        .unwrap()
-                        .value()
-                        .expect("Expected an integer value");
-                    let value = prev_value + 1;
+                    let value = loop_state.value + 1;
                     if value < loop_state.max {
+                        loop_state.value = value;
                         ctx.set(loop_state.variable, value);
                         self.inner_state = StmtIteratorState::StartIterateInner(loop_state.take());
                     } else {
